@@ -9,7 +9,8 @@ import itertools, warnings, inspect
 from . import core, progs
 from .core import sigtools, signatures
 
-FORMS = ('function', 'method', 'super', 'apply_super', 'super_closure')
+FORMS = ('function', 'method', 'super', 'apply_super', 'super_closure', 'apply_super_shared')
+# 'apply_super_shared': ONE decorator object made by apply_forwards_to_super decorates an unrelated class first, then the class under test
 # 'super_closure': the class is made by a factory and the method closes over the factory's arguments (free variables that
 # sort before and after `__class__`) besides the implicit `__class__` cell of the argument-less super()
 RECEIVERS = ('plain', 'falsy_len', 'falsy_bool')
@@ -84,6 +85,13 @@ def build(req):
         if form == 'super':
             L += ['class C(Base):']
             L += ind(['@specifiers.forwards_to_super(%s)' % decl_args])
+        elif form == 'apply_super_shared':
+            L += ["deco = specifiers.apply_forwards_to_super('wrapper', num_args=%d, named_args=%r, %s)" % (n, tuple(names), kw),
+                  'class Root0(object):']
+            L += ind(dsrc(selfp + [core.P('q9', 'pk')], 'wrapper', "return ('root0', q9)"))
+            L += ['@deco', 'class D0(Root0):']
+            L += ind(dsrc(selfp + list(ops), 'wrapper', 'return None'))
+            L += ['@deco', 'class C(Base):']
         else:
             L += ["@specifiers.apply_forwards_to_super('wrapper', num_args=%d, named_args=%r, %s)" % (n, tuple(names), kw),
                   'class C(Base):']
@@ -191,6 +199,13 @@ _PF_TEMPLATES = {
     # resolves the callee, exactly as for the natively written twin wn
     'hintkwo': 'from sigtools import modifiers\n@modifiers.kwoargs("opt")\ndef w(cb, opt=None, *args, **kwargs):\n    return cb(*args, **kwargs)\n'
                'def wn(cb, *args, opt=None, **kwargs):\n    return cb(*args, **kwargs)\n',
+    # the bound callee is a callable object whose truth value is False (an empty container that is callable / __bool__ False):
+    # it resolves the callee exactly as its always-true twin does
+    'falsylen': 'class Cb(list):\n    def __call__(self, *args, **kwargs):\n        return callee(*args, **kwargs)\n'
+                'def w(cb, *args, **kwargs):\n    return cb(*args, **kwargs)\nwn = w\n',
+    'falsybool': 'class Cb(object):\n    def __init__(self, t):\n        self.t = t\n    def __bool__(self):\n        return self.t\n'
+                 '    def __call__(self, *args, **kwargs):\n        return callee(*args, **kwargs)\n'
+                 'def w(cb, *args, **kwargs):\n    return cb(*args, **kwargs)\nwn = w\n',
     'hintposo': 'from sigtools import modifiers\n@modifiers.posoargs("cb")\ndef w(cb, *args, **kwargs):\n    return cb(*args, **kwargs)\n'
                 'def wn(cb, /, *args, **kwargs):\n    return cb(*args, **kwargs)\n',
 }
@@ -211,6 +226,12 @@ def rt_partialfwd(req):
         src += ['p = functools.partial(w, callee%s)' % ''.join(', %d' % (700 + i) for i in range(extra))]
         if tmpl != 'posparam':
             src += ['pn = functools.partial(wn, callee%s)' % ''.join(', %d' % (700 + i) for i in range(extra))]
+    elif tmpl == 'falsylen':
+        src += ['p = functools.partial(w, Cb()%s)' % ''.join(', %d' % (700 + i) for i in range(extra)),
+                'pn = functools.partial(w, Cb([1])%s)' % ''.join(', %d' % (700 + i) for i in range(extra))]
+    elif tmpl == 'falsybool':
+        src += ['p = functools.partial(w, Cb(False)%s)' % ''.join(', %d' % (700 + i) for i in range(extra)),
+                'pn = functools.partial(w, Cb(True)%s)' % ''.join(', %d' % (700 + i) for i in range(extra))]
     elif tmpl == 'nestedkw':
         src += ['inner = functools.partial(w, callee, a=0)', 'inner.tag = "tagged"',
                 'p = functools.partial(inner%s)' % ''.join(', %d' % (700 + i) for i in range(extra))]
@@ -274,6 +295,13 @@ def rt_partialfwd(req):
                             sig, m, K, e, text))
                         break
             return ('ok', tuple(problems[:2]), 'glob-executed:%d' % ran)
+        if tmpl in ('falsylen', 'falsybool'):
+            with warnings.catch_warnings():
+                warnings.simplefilter('ignore')
+                twin = sigtools.signature(mod.pn)
+            if str(sig) != str(twin):
+                problems.append('partialfwd-falsy-callee: functools.partial(w, <callable whose truth value is False>) is reported as %s, '
+                                'with its always-true twin bound instead as %s\n%s' % (sig, twin, text))
         if tmpl in ('hintkwo', 'hintposo'):
             with warnings.catch_warnings():
                 warnings.simplefilter('ignore')
@@ -293,7 +321,7 @@ def rt_partialfwd(req):
             if want is not None and [q.name for q in sig.parameters.values()] != [q.name for q in signatures.mask(isig, extra).parameters.values()]:
                 problems.append('partialfwd-nested-keyword: partial(inner%s) with inner = partial(w, callee, a=0) is reported as %s; inner alone is %s' % (
                     ', ...' if extra else '', sig, isig))
-        if tmpl not in ('posparam', 'nestedpartial', 'hintkwo', 'hintposo', 'nestedkw') and str(sig) != str(plain):
+        if tmpl not in ('posparam', 'nestedpartial', 'hintkwo', 'hintposo', 'nestedkw', 'falsylen', 'falsybool') and str(sig) != str(plain):
             problems.append('partialfwd-resolved-unbound: the callee is not bound positionally, yet sigtools.signature(p) = %s differs from '
                             'signatures.signature(p) = %s\n%s' % (sig, plain, text))
         d = sig.sources['+depths'].get(mod.p)
